@@ -2,7 +2,7 @@
 // save+restore are read from a case file, one observation line is printed per step.
 //
 // Input (whitespace separated tokens, one step per line):
-//   CASE <id> <gmap i e r | -> <rm_root 0|1> <no_open 0|1> <no_opendir 0|1>
+//   CASE <id> <gmap i e r | -> <rm_root 0|1> <no_open 0|1> <no_opendir 0|1> [<no_writeback> <killpriv_v2> <no_readdir> <seal_size>]
 //   M <bid> <path> <i e r | -> <err> <root_ino> <uid> <gid> <tag> <max_ino> <init_err>
 //   U <path>
 //   I <opts>                      (FileSystem::init on the Vfs)   each backend answers init with <ierr>: I <opts> <ierr>
@@ -411,6 +411,10 @@ struct Cfg {
     rm_root: bool,
     no_open: bool,
     no_opendir: bool,
+    no_writeback: bool,
+    killpriv_v2: bool,
+    no_readdir: bool,
+    seal_size: bool,
 }
 fn new_vfs(cfg: &Cfg, default_opts: bool) -> Vfs {
     let mut o = VfsOptions::default();
@@ -420,6 +424,10 @@ fn new_vfs(cfg: &Cfg, default_opts: bool) -> Vfs {
         }
         o.no_open = cfg.no_open;
         o.no_opendir = cfg.no_opendir;
+        o.no_writeback = cfg.no_writeback;
+        o.killpriv_v2 = cfg.killpriv_v2;
+        o.no_readdir = cfg.no_readdir;
+        o.seal_size = cfg.seal_size;
     }
     let mut v = Vfs::new(o);
     if cfg.rm_root {
@@ -590,13 +598,16 @@ fn vfs_err(e: fuse_backend_rs::api::vfs::VfsError) -> String {
 fn dump_state(vfs: &Vfs) -> String {
     let o = vfs.options();
     format!(
-        "ok {} {} {} {} {} {} {} {} {}",
+        "ok {} {} {} {} {} {} {} {} {} {} {} {}",
         vfs.initialized() as u8,
         o.in_opts.bits(),
         o.out_opts.bits(),
         o.no_open as u8,
         o.no_opendir as u8,
         o.no_readdir as u8,
+        o.no_writeback as u8,
+        o.killpriv_v2 as u8,
+        o.seal_size as u8,
         o.id_mapping.0,
         o.id_mapping.1,
         o.id_mapping.2
@@ -637,7 +648,7 @@ fn main() {
     let stdout = io::stdout();
     let mut w = io::BufWriter::new(stdout.lock());
     let mut vfs: Option<Vfs> = None;
-    let mut cfg = Cfg { gmap: None, rm_root: false, no_open: true, no_opendir: true };
+    let mut cfg = Cfg { gmap: None, rm_root: false, no_open: true, no_opendir: true, no_writeback: false, killpriv_v2: false, no_readdir: false, seal_size: false };
     let sh = Arc::new(Shared::default());
     let mut live: Vec<Live> = Vec::new();
     let mut dead = false; // after a panic the rest of the history is skipped
@@ -649,7 +660,8 @@ fn main() {
         }
         if t[0] == "CASE" {
             let (gmap, i) = pmap(&t, 2);
-            cfg = Cfg { gmap, rm_root: t[i] == "1", no_open: t[i + 1] == "1", no_opendir: t[i + 2] == "1" };
+            let fl = |k: usize| t.len() > i + k && t[i + k] == "1";
+            cfg = Cfg { gmap, rm_root: fl(0), no_open: fl(1), no_opendir: fl(2), no_writeback: fl(3), killpriv_v2: fl(4), no_readdir: fl(5), seal_size: fl(6) };
             vfs = Some(new_vfs(&cfg, false));
             live.clear();
             dead = false;
